@@ -106,6 +106,17 @@ type Tagged struct {
 	P *K00
 }
 
+// MapsOdd has map fields whose key / element kinds differ from the wire kinds (int, float32, int8, uint16).
+// The library cannot decode them today (a reflect assignment error), so the strict-oracle domain excludes
+// the type; the differential and robustness checks use it.
+type MapsOdd struct {
+	SI   map[string]int
+	SF32 map[string]float32
+	I8S  map[int8]string
+	SU16 map[string]uint16
+	N    int32
+}
+
 // Bag holds untyped containers. It is part of the type/name maps (so that list type names map to
 // []interface{} and map[string]interface{}), and is used by hand-built peer streams; the value
 // generator does not draw it.
@@ -198,7 +209,7 @@ var kTypes = []reflect.Type{
 
 var bigTypes = []reflect.Type{
 	reflect.TypeOf(Scalars{}), reflect.TypeOf(Node{}), reflect.TypeOf(Emb{}), reflect.TypeOf(Named{}),
-	reflect.TypeOf(Lists{}), reflect.TypeOf(Maps{}), reflect.TypeOf(Wide{}), reflect.TypeOf(Tagged{}),
+	reflect.TypeOf(Lists{}), reflect.TypeOf(Maps{}), reflect.TypeOf(Wide{}), reflect.TypeOf(Tagged{}), reflect.TypeOf(MapsOdd{}),
 }
 
 // ---- type map / name map ---------------------------------------------------------------------
@@ -221,6 +232,7 @@ func witness() interface{} {
 		W  *Wide
 		Bg *Bag
 		Tg *Tagged
+		Mo *MapsOdd
 		// struct types must be reachable through typed fields (an interface{} element hides them
 		// from the extraction)
 		K00 *K00
@@ -264,6 +276,7 @@ func witness() interface{} {
 			SB: map[string]bool{"a": true}, SP: map[string]*K02{"a": {1, "x"}}, IS: map[int32]string{1: "a"}, LS: map[int64]string{1: "a"},
 			SBin: map[string][]byte{"a": {1}}},
 		W:  &Wide{S0: "a", S1: "b", N0: n, K: &K05{true, "k"}, M: map[string]int32{"a": 1}, Z: []string{"z"}},
+		Mo: &MapsOdd{SI: map[string]int{"a": 1}, SF32: map[string]float32{"a": 1.5}, I8S: map[int8]string{1: "a"}, SU16: map[string]uint16{"a": 1}, N: 1},
 		Tg: &Tagged{L: Labels{"a": "b"}, I: IDs{1}, N: 1, P: &K00{1, "a"}},
 		Bg: &Bag{Items: []interface{}{int32(1)}, Other: []int32{1}, M: map[string]interface{}{"a": int32(1)}},
 	}
@@ -358,6 +371,7 @@ type Domain struct {
 	WideInts         bool // int/uint values outside the wire type of their kind
 	AllDoubles       bool // any float64 bit pattern (NaN, inf, subnormal)
 	SharedSlices     bool // the same slice/map object in two places
+	OddMaps          bool // maps whose key / element kinds differ from the wire kinds (type MapsOdd)
 	MaxListLen       int
 	MaxMapLen        int
 }
@@ -771,6 +785,9 @@ func (g *Gen) Value() interface{} {
 	switch g.ch.Pick([]int{35, 35, 20, 10}, "top.kind") {
 	case TopStruct:
 		t := bigTypes[g.ch.Intn(len(bigTypes), "top.big")]
+		if t == reflect.TypeOf(MapsOdd{}) && !g.dom.OddMaps {
+			t = reflect.TypeOf(Maps{})
+		}
 		if t == reflect.TypeOf(Node{}) {
 			return g.newNode(0)
 		}
